@@ -239,6 +239,30 @@ def structure(case):
                     set(frozenset(S[k] for k in st) for st in ss.stars):
                 same = False
         ob('sum-equals-generate-with-summed-range', same)
+        # in-place accumulation history: an empty set takes over a one-range set and then grows by it again and
+        # again; after every step the accumulator is the k-range set and the operand is still the one-range set
+        def consistent(x):
+            return (x.Nstates == len(x.states) and x.Nstars == len(x.stars) and len(x.index) == x.Nstates and
+                    sorted(k for st in x.stars for k in st) == list(range(x.Nstates)) and
+                    all(x.stateindex(s) == k for k, s in enumerate(x.states)))
+        acc_ok = True
+        one = stars.StarSet(jn, crys, chem, 1, originstates=OS)
+        one_states = state_tuples(one.states)
+        acc = one.copy(empty=True)
+        want = {1: set(one_states), N: set(S)}
+        for k in range(1, N + 1):
+            acc += one
+            if k not in want:
+                want[k] = set(state_tuples(stars.StarSet(jn, crys, chem, k, originstates=OS).states))
+            if set(state_tuples(acc.states)) != want[k] or acc.Nshells != k or not consistent(acc):
+                acc_ok = False
+            if state_tuples(one.states) != one_states or one.Nshells != 1 or not consistent(one):
+                acc_ok = False
+        cp = ss.copy()
+        cp += one
+        if state_tuples(ss.states) != S or not consistent(ss) or not consistent(cp) or cp.Nshells != N + 1:
+            acc_ok = False
+        ob('accumulation-history-keeps-operands-and-sums', acc_ok)
         return obs
     return fn
 
